@@ -57,7 +57,9 @@ Verdict typeWith(Ctx& c, bool scoping, bool templates = false) {
   }
   std::string opName;
   const bool doMutate = scoping ? c.chance(3, 4) : c.chance(1, 2);
-  if (doMutate) e = mutate(c, e, g.G, opName, scoping && c.chance(2, 3) ? 5 : -1);  // scoping: mostly "rename one occurrence of a local"
+  int force = -1;
+  if (doMutate && scoping) { const int w = c.ipick(0, 5); force = w <= 2 ? 5 : w == 3 ? 10 : -1; }  // scoping: mostly "rename one occurrence of a local", sometimes "empty set next to an undeclared variable"
+  if (doMutate) e = mutate(c, e, g.G, opName, force);
   const bool ascii = c.chance(1, 3);
   bool greek = false; { std::set<std::string> ns; std::function<void(const Expr&)> f = [&](const Expr& x) { if (x.id == TID::ID_LOCAL) for (unsigned char ch : x.name) greek |= ch >= 0x80; for (auto& k : x.kids) f(*k); }; f(*e); }
   PrintOpts po; po.syn = (ascii && !greek) ? Syn::ASCII : Syn::MATH;
